@@ -1455,7 +1455,11 @@ func (s *DefaultSpec) decode(content *hcl.BodyContent, blockLabels []blockLabel,
 	val, diags := s.Primary.decode(content, blockLabels, ctx)
 	if val.IsNull() {
 		var moreDiags hcl.Diagnostics
+		primaryVal := val
 		val, moreDiags = s.Default.decode(content, blockLabels, ctx)
+		// The primary value being null is what selected the default, so any
+		// marks on that null value must carry over to the result.
+		val = val.WithSameMarks(primaryVal)
 		diags = append(diags, moreDiags...)
 	}
 	return val, diags
